@@ -5,7 +5,7 @@ import os, random, shutil, subprocess, tempfile, json, concurrent.futures as cf
 from .. import impl, coqrun
 
 MODS = ['Model.Cli']
-RULE = ('cases = operation histories {create/modify/touch a source (mtimes set explicitly), re-stamp an output older/equal/newer, run the real '
+RULE = ('cases = operation histories (random operations, then always: a run, one source rewritten or touched, the same run again) {create/modify/touch a source (mtimes set explicitly), re-stamp an output older/equal/newer, run the real '
         'command line with a random subset of -f -D -m -r -x -X -t -s N -I} over a tree with two levels, a hidden directory and non-.less '
         'files; after EVERY run the whole output tree (names, bytes, which files were rewritten) is compared with the Coq model of ldirectory, '
         'whose compile oracle is a single-file run of the real command line with the same options and includes; plus single-file mode vs '
@@ -137,6 +137,13 @@ def run_cli(args, cwd, scratch):
     return p
 
 
+def existing_any(src):
+    for dp, dn, fn in os.walk(src):
+        if any(n.endswith('.less') for n in fn):
+            return True
+    return False
+
+
 def one_history(seed, tier, base):
     rng = random.Random(seed)
     root = tempfile.mkdtemp(prefix='h%d-' % (seed % 100000), dir=base)
@@ -156,9 +163,23 @@ def one_history(seed, tier, base):
         w.write('notes.txt', 'not less\n')
     records = []
     oracle_jobs = {}
-    nops = rng.choice([3, 4, 5, 6]) if tier == 'quick' else rng.choice([5, 7, 9])
-    for _ in range(nops):
+    nops = rng.choice([4, 5, 6, 7]) if tier == 'quick' else rng.choice([5, 7, 9])
+    last_run = False
+    # the random operations, then always: a plain run, ONE source rewritten or touched, the same run again (a mixed run: one output
+    # must be rewritten, the others left alone)
+    tail_flags = {'force': False, 'dry': False, 'min': rng.random() < 0.3, 'recurse': rng.random() < 0.7}
+    plan = [None] * nops + ['run', rng.choice(['modify', 'touch']), 'run']
+    for forced in plan:
         k = rng.random()
+        if forced == 'run':
+            k = 0.9
+        elif forced == 'modify':
+            k = 0.2
+        elif forced == 'touch':
+            k = 0.35
+        elif last_run and existing_any(w.src):
+            k = rng.choice([0.2, 0.2, 0.35, 0.45, k])       # after a run: usually change ONE source / output, so the next run is a mixed one
+        last_run = False
         existing = []
         for dp, dn, fn in os.walk(w.src):
             for n in fn:
@@ -184,12 +205,15 @@ def one_history(seed, tier, base):
                     t = st + rng.choice([-1, 0, 1])
                     os.utime(o, ns=(t * TICK, t * TICK))
         else:
+            last_run = True
             fl = {'force': rng.random() < 0.25, 'dry': rng.random() < 0.15, 'min': rng.random() < 0.3, 'recurse': rng.random() < 0.6}
             for kf in ('minify', 'xminify', 'tabs'):
                 if rng.random() < 0.2:
                     fl[kf] = True
             if rng.random() < 0.3:
                 fl['spaces'] = rng.choice([0, 1, 4])
+            if forced == 'run':
+                fl = dict(tail_flags)
             pre_src = w.tree_logical(w.src)
             pre_out = w.tree_logical(w.out)
             args = flags_cli(fl) + (['-I', inc_path] if use_inc else []) + ['-o', 'out', 'src']
@@ -292,7 +316,13 @@ def run(ctx):
         for r in recs:
             post, pre = r['impl']['post'], r['input']['pre_out']
             keys.add(json.dumps([r['input']['flags'], r['input']['pre_src'], pre], sort_keys=True, default=str))
-            if post and pre and any(post['files'].get(n) != v for n, v in pre['files'].items()) and any(post['files'].get(n) == v for n, v in pre['files'].items()):
+            def flat(t, pfx=''):
+                d = {pfx + n: v for n, v in (t or {'files': {}})['files'].items()}
+                for n, sub in (t or {'subs': {}})['subs'].items():
+                    d.update(flat(sub, pfx + n + '/'))
+                return d
+            fpost, fpre = flat(post), flat(pre)
+            if fpost and fpre and any(fpost.get(n) != v for n, v in fpre.items()) and any(fpost.get(n) == v for n, v in fpre.items()):
                 nontriv += 1
         out['distinct_nontrivial'] = max(nontriv, 0)
         out['samples'] = [{'flags': r['input']['flags'], 'src': sorted(r['input']['pre_src']['files']), 'post': sorted((r['impl']['post'] or {'files': {}})['files'])} for r in recs[:4]]
